@@ -9,7 +9,11 @@ proof  : lean/Pyunicorn/Properties/C15.lean (shuffle / rank remapping are row
          twin_surrogates as a whole; the loop-level model of the kernels —
          np.empty work arrays re-used across series, nR bookkeeping, running
          embedding index, index arithmetic regenerated from surrogates.py and
-         numerics.pyx by translate/gen_arith.py — equals the abstract model)
+         numerics.pyx by translate/gen_arith.py — equals the abstract model;
+         round 3: the neighbour counter in the machine integer the source declares
+         (exact up to n_time = 2^bits, sharp), every store / decrement / scan
+         subscript of _twins_s and _twins_r from the source, RecurrencePlot.
+         twin_surrogates as a whole, a Surrogates object over every call history)
 tie    : correspondence of lean/Pyunicorn/Model/Surrogates.lean with the real
          code on the same inputs, with the random choices *recorded or fed*:
          the module globals `random` / `np` of surrogates.py and `random` of the
@@ -17,7 +21,9 @@ tie    : correspondence of lean/Pyunicorn/Model/Surrogates.lean with the real
          shuffle permutation, the phases, the arrays irfft returns, the
          random.random() stream).  Exact on rationals; the phase multiplication
          is compared in IEEE double with tolerance.  The in-place/copy mode of
-         the phase multiplication is read off the source (ast) on every run.
+         the phase multiplication is read off the source (ast) on every run, and so
+         are the width of the neighbour counter and the re-embedding / cache-key
+         policy of twin_surrogates / twins (obligations + model parameters).
 search : oracle independent of the model on the *unpatched* code: row-wise
          multiset equality, amplitude spectra via numpy.fft.rfft, twin lists
          against the definition on a brute-force recurrence matrix, every
@@ -670,6 +676,12 @@ def run(ctx):
                         reqs.append(f"aaft {enc_mat(data)} {enc_mat(outs[0])}")
                         impl.append(enc_mat(R))
                         ctx.count("gen:AAFT")
+                    elif exact_ok and np.isfinite(outs[0]).all():
+                        # ties in the ranked array: numpy's order among them is unspecified, the
+                        # multiset of (ranked value, output value) pairs of every row is not
+                        reqs.append(f"aaft {enc_mat(data)} {enc_mat(outs[0])}")
+                        impl.append(("canon", np.array(R, dtype=float), np.array(outs[0], dtype=float)))
+                        ctx.count("gen:AAFT:ties-compared-up-to-tie-order")
                     else:
                         ctx.count("skipped-for-correspondence:ranked-array-has-ties")
                     # first stage: the Gaussian reference in the rank order of the data is what
@@ -678,6 +690,11 @@ def run(ctx):
                         reqs.append(f"rescaled {enc_mat(data)} {enc_mat(rp_.gauss[0])}")
                         impl.append(enc_mat(np_.fft.rfft_in[-1]))
                         ctx.count("gen:AAFT-first-stage")
+                    elif exact_ok and not has_ties(rp_.gauss[0]):
+                        reqs.append(f"rescaled {enc_mat(data)} {enc_mat(rp_.gauss[0])}")
+                        impl.append(("canon", np.array(np_.fft.rfft_in[-1], dtype=float),
+                                     np.array(data, dtype=float)))
+                        ctx.count("gen:AAFT-first-stage:ties-compared-up-to-tie-order")
             else:
                 R, sp = s.refined_AAFT_surrogates(nit, output="both") if nit else \
                     (s.refined_AAFT_surrogates(nit, output="true_amplitudes"), None)
@@ -687,7 +704,13 @@ def run(ctx):
                     struct_bad.append(f"refined_AAFT_surrogates: {len(outs)} irfft / {len(rout)} rfft "
                                       f"calls for n_iterations={nit}")
                 else:
-                    if any(has_ties(o) or np.isnan(o).any() for o in outs) or not exact_ok:
+                    if exact_ok and all(np.isfinite(o).all() for o in outs) and \
+                            any(has_ties(o) for o in outs):
+                        # the result depends on the tie order only through the last ranked array
+                        reqs.append(f"refined {enc_mat(data)} {enc_mat(outs[0])} {enc_mats(outs[1:])}")
+                        impl.append(("canon", np.array(R, dtype=float), np.array(outs[-1], dtype=float)))
+                        ctx.count("gen:refined_AAFT:ties-compared-up-to-tie-order")
+                    elif any(has_ties(o) or np.isnan(o).any() for o in outs) or not exact_ok:
                         ctx.count("skipped-for-correspondence:ranked-array-has-ties")
                     else:
                         reqs.append(f"refined {enc_mat(data)} {enc_mat(outs[0])} {enc_mats(outs[1:])}")
@@ -1029,7 +1052,23 @@ def run(ctx):
     model = common.driver("C15", reqs) if HAVE_DRIVER else []
     bad = []
     for i, (rq, im, mo) in enumerate(zip(reqs, impl, model)):
-        if isinstance(im, tuple):
+        if isinstance(im, tuple) and im[0] == "canon":
+            # equal up to the order among ties of the ranked array `key`: per row the sorted
+            # lists of (key value, output value) pairs agree
+            _, got_, key_ = im
+            try:
+                mrows = [] if mo == "E" else [[Fraction(x) for x in r.split(",")] if r != "-" else []
+                                              for r in mo.split(";")]
+                ok = len(mrows) == got_.shape[0] and all(
+                    sorted(zip([Fraction(float(v)) for v in key_[r]], mrows[r])) ==
+                    sorted(zip([Fraction(float(v)) for v in key_[r]],
+                               [Fraction(float(v)) for v in got_[r]]))
+                    for r in range(got_.shape[0]))
+            except Exception:  # noqa
+                ok = False
+            if not ok:
+                bad.append((i, mo, "equal up to tie order expected: " + enc_mat(got_)))
+        elif isinstance(im, tuple):
             if mo.startswith("raise:") or "#" not in mo:
                 bad.append((i, mo, "values"))
                 continue
